@@ -37,27 +37,45 @@ Proof.
   apply Z.div_pos; lia.
 Qed.
 
+Lemma go_int_id : forall z, -9223372036854775808 <= z < 9223372036854775808 -> go_int z = z.
+Proof. intros z H. unfold go_int. rewrite Z.mod_small by lia. lia. Qed.
+
+(** What is assumed of a selection entry [start, stop, step] on an axis of
+    extent n for the theorems: they are Go ints, start >= 0, step >= 1, and
+    extent + step - 1 does not overflow (n + step <= 2^63); stop may be ANY int
+    not below MinInt64 + n -- in particular MaxInt64, the open-ended idiom. *)
+Definition ss_ok (a b s n : Z) : Prop :=
+  0 <= a < 9223372036854775808 /\ 1 <= s /\ 0 <= n /\ n + s <= 9223372036854775808 /\
+  -9223372036854775808 + n <= b < 9223372036854775808.
+
 (** The Go expression: ceiling division of the clipped extent; [stop] beyond the
     axis clips to it; a start at or beyond the end gives 0. *)
-Theorem slice_size_spec : forall a b s n, 0 <= a -> 1 <= s -> 0 <= n ->
+Theorem slice_size_spec : forall a b s n, ss_ok a b s n ->
   slice_size [a; b; s] n = Some (slice_count a b s n).
 Proof.
-  intros a b s n Ha Hs Hn. unfold slice_size.
-  rewrite !go_min_int_min, go_max_int_max.
+  intros a b s n [Ha [Hs [Hn [Hns Hb]]]]. unfold slice_size.
+  rewrite !go_min_int_min. rewrite (go_int_id (Z.min n b - Z.min n a)) by lia.
+  rewrite go_max_int_max.
   destruct (Z.eqb_spec s 0); [lia|]. f_equal.
   unfold slice_count.
   destruct (Z.leb_spec (Z.min b n) a) as [L|L].
   - replace (Z.max 0 (Z.min n b - Z.min n a)) with 0 by lia.
-    rewrite Z.quot_small; lia.
+    rewrite (go_int_id (0 + s - 1)) by lia. rewrite Z.quot_small by lia. apply go_int_id. lia.
   - replace (Z.max 0 (Z.min n b - Z.min n a)) with (Z.min b n - a) by lia.
-    rewrite Z.quot_div_nonneg by lia. reflexivity.
+    rewrite (go_int_id (Z.min b n - a + s - 1)) by lia.
+    rewrite Z.quot_div_nonneg by lia.
+    apply go_int_id.
+    assert (0 <= (Z.min b n - a + s - 1) / s) by (apply Z.div_pos; lia).
+    assert ((Z.min b n - a + s - 1) / s <= Z.min b n - a + s - 1) by (apply Z.div_le_upper_bound; nia).
+    lia.
 Qed.
 
-Corollary slice_size_counts : forall a b s n c, 0 <= a -> 1 <= s -> 0 <= n ->
+Corollary slice_size_counts : forall a b s n c, ss_ok a b s n ->
   slice_size [a; b; s] n = Some c ->
   0 <= c /\ forall k, 0 <= k -> (k < c <-> a + k * s < Z.min b n).
 Proof.
-  intros a b s n c Ha Hs Hn H. rewrite slice_size_spec in H by assumption. inversion H; subst.
+  intros a b s n c OK H. rewrite slice_size_spec in H by assumption. inversion H; subst.
+  destruct OK as [Ha [Hs _]].
   split; [apply slice_count_nonneg; lia|]. intros. apply slice_count_spec; lia.
 Qed.
 
